@@ -261,7 +261,8 @@ CHECKS["C15"] = {
             "whose key search took longest (longest generator streams) plus a few fixed ones are then generated (a) in the main "
             "thread with unrelated thread_rng draws in between, (b) by 8 concurrent threads walking the seeds in different orders "
             "while signing with other keys in between, (c) by two child processes started with different environment (TZ, LANG, "
-            "environment size) - all fingerprints of a seed must be identical. Bit flips: for a base seed, the 257 keys of the seed "
+            "environment size), (d) for a few seeds: both variants from the SAME seed back to back in one thread versus fresh "
+            "threads - all fingerprints of a seed must be identical. Bit flips: for a base seed, the 257 keys of the seed "
             "and its 256 single-bit neighbours must be pairwise distinct in both secret and public key (one Falcon-512 neighbourhood "
             "quick; 5 Falcon-512 + 1 Falcon-1024 thorough). distinct_nontrivial = seeds with a multi-context history + bit-flip "
             "neighbours generated.",
